@@ -36,9 +36,9 @@ import (
 	"time"
 
 	"github.com/mycoria/crop"
-	"github.com/mycoria/mycoria/m"
 	"github.com/mycoria/mycoria"
 	"github.com/mycoria/mycoria/config"
+	"github.com/mycoria/mycoria/m"
 	"github.com/mycoria/mycoria/storage"
 
 	"verif/core"
